@@ -18,11 +18,11 @@ import (
 
 type AuthHost struct {
 	Name        string `json:"name"`
-	Scheme      string `json:"scheme"` // none | basic | bearer-dist | bearer-oauth2
+	Scheme      string `json:"scheme"`                 // none | basic | bearer-dist | bearer-oauth2
 	ForeignAuth bool   `json:"foreign_auth,omitempty"` // token realm on auth.example instead of the registry host
 	ChangeAfter int    `json:"change_after,omitempty"` // after this many requests to the host the scheme becomes NewScheme
 	NewScheme   string `json:"new_scheme,omitempty"`
-	ScopeStyle  int    `json:"scope_style,omitempty"` // how the challenge renders the scope string
+	ScopeStyle  int    `json:"scope_style,omitempty"`  // how the challenge renders the scope string
 	PresetToken bool   `json:"preset_token,omitempty"` // the credential carries an access token
 	Redirect    bool   `json:"redirect,omitempty"`     // blob GETs are redirected to cdn.example
 	NoCred      bool   `json:"no_cred,omitempty"`      // the caller has no credential for this host
@@ -31,8 +31,8 @@ type AuthHost struct {
 type AuthReq struct {
 	Host   int      `json:"host"`
 	Repo   string   `json:"repo"`
-	Method string   `json:"method"` // GET | PUT | BLOB
-	Hints  []string `json:"hints,omitempty"` // scope hints put into the context (raw, possibly permuted/duplicated)
+	Method string   `json:"method"`           // GET | PUT | BLOB
+	Hints  []string `json:"hints,omitempty"`  // scope hints put into the context (raw, possibly permuted/duplicated)
 	Global bool     `json:"global,omitempty"` // hints given with WithScopes instead of per host
 	Task   int      `json:"task,omitempty"`
 }
@@ -203,8 +203,10 @@ type authWorld struct {
 const authRealmHost = "auth.example"
 const authCDNHost = "cdn.example"
 
-func (w *authWorld) user(i int) string    { return fmt.Sprintf("user%d", i) }
-func (w *authWorld) pass(i int) string    { return fmt.Sprintf("pw-secret-%d-%s", i, strings.Repeat("z", 6)) }
+func (w *authWorld) user(i int) string { return fmt.Sprintf("user%d", i) }
+func (w *authWorld) pass(i int) string {
+	return fmt.Sprintf("pw-secret-%d-%s", i, strings.Repeat("z", 6))
+}
 func (w *authWorld) refresh(i int) string { return fmt.Sprintf("refresh-secret-%d-qqqq", i) }
 func (w *authWorld) preset(i int) string  { return fmt.Sprintf("preset-access-%d-wwww", i) }
 func (w *authWorld) basicToken(i int) string {
